@@ -1006,6 +1006,10 @@ def build_spec(g):
            ptypes={"self_flow_type": "FlowConfigType", "coordinates": "list (Q * Q)"},
            extra_strict=["self.flow_type", "self.V_flow"])
     g.same_ast("search_routines.py", "Bisection1D.retrieve_flow", "RowWiseModifiedBisectionSearch.retrieve_flow")
+    g.assign_expr("ground_heat_exchangers.py", "BaseGHE.__init__", "self.V_flow_borehole", "ghe_v_flow_borehole", [],
+                  attrs=["self.V_flow_system", "self.nbh"])
+    g.assign_expr("ground_heat_exchangers.py", "BaseGHE.__init__", "m_flow_borehole", "ghe_m_flow_borehole", [],
+                  attrs=["self.V_flow_borehole", "fluid.rho"])
 
 
 def main():
